@@ -774,6 +774,9 @@ func (e *Enc) loopEnv(li *loopInfo, st *State, bind map[ssa.Value]Val) *Env {
 		}
 		if phi.Comment != "" {
 			env.vars[phi.Comment] = TV{T: v.T, Typ: phi.Type()}
+			if _, ok := env.vars["cur_"+phi.Comment]; ok {
+				env.vars["cur_"+phi.Comment] = TV{T: v.T, Typ: phi.Type()}
+			}
 		}
 		env.vars["$"+phi.Name()] = TV{T: v.T, Typ: phi.Type()}
 	}
@@ -828,6 +831,11 @@ func (e *Enc) fnEnv(st *State) *Env {
 		env.vars[fv.Name()] = TV{T: v.T, Typ: fv.Type()}
 	}
 	for _, p := range e.fn.Params {
+		// a parameter name denotes the value passed in; when the variable is reassigned in a loop the
+		// value it holds in the current iteration is available as cur_<name>
+		if cur, ok := env.vars[p.Name()]; ok && cur.T.S != e.vals[p].T.S {
+			env.vars["cur_"+p.Name()] = cur
+		}
 		env.vars[p.Name()] = TV{T: e.vals[p].T, Typ: p.Type()}
 	}
 	// explicit SSA registers: $t12
@@ -940,6 +948,11 @@ func (e *Enc) loopHeader(b *ssa.BasicBlock, li *loopInfo, preds []*ssa.BasicBloc
 		if !cd.dead {
 			e.assume(cd.mk(e, nil, e.cur))
 		}
+	}
+	// a pointer carried around the loop refers to an object that satisfies its type's invariant
+	// (every value flowing into the phi was loaded, returned or passed in under that invariant)
+	for _, phi := range phis {
+		e.assumeLoadedInv(e.termOf(phi), phi.Type())
 	}
 	e.reassumeInvariants()
 	li.headerState = e.cur.clone()
